@@ -85,6 +85,12 @@ StreamObs(r) == (IF "stream" \in DOMAIN r THEN {r.stream} ELSE {}) \cup (IF "str
 \* (records of kind "auditnl", harness/cmd/auditnl)
 Checks(r) ==
     IF "k" \in DOMAIN r /\ r.k = "auditnl" THEN { <<"AuditNewline", r.same>> } ELSE
+    \* C06 at the daemon: every event of a short run of the built binary carries this node's name (NODE_NAME, or the
+    \* host name when that is empty or unset) and the machine id
+    IF "k" \in DOMAIN r /\ r.k = "target"
+    THEN { <<"Target", /\ r.events = r.sent
+                       /\ \A i \in 1..Len(r.hosts) : r.hosts[i] = r.wanthost
+                       /\ \A i \in 1..Len(r.mids) : r.mids[i] = r.wantmid>> } ELSE
     LET o == r.direct
         exact == r.fam \in {"grammar"}
     IN { <<"Universal", Universal(o, r.line)>>,
